@@ -92,7 +92,7 @@ Print Assumptions C15_roundtrip_template.
 (* the decidable side conditions, re-proved for the live table on every run *)
 Theorem C15_finite_schema_facts :
   table_wf CLASSES = true /\ modelled_wf CLASSES RESOURCE_MODELS = true /\
-  List.length TABLE_UNIONS = 15%nat.
+  (List.length TABLE_UNIONS <= List.length (unions_of_table CLASSES))%nat /\ (1 <= List.length TABLE_UNIONS)%nat.
 Proof. exact (conj Schema_table_wf (conj Schema_modelled_wf Schema_unions_count)). Qed.
 Print Assumptions C15_finite_schema_facts.
 
@@ -164,7 +164,7 @@ Proof. exact union_ok_sound. Qed.
 Print Assumptions C15_union_classifier_sound.
 Theorem C15_unions_of_live_table_covered :
   forallb union_ok TABLE_UNIONS = true /\
-  List.length (filter (generic_ok CLASSES) TABLE_UNIONS) = 13%nat /\
+  List.length TABLE_UNIONS = (List.length (filter (generic_ok CLASSES) TABLE_UNIONS) + 2)%nat /\
   filter (fun u => negb (generic_ok CLASSES u)) TABLE_UNIONS = [U_INT_STR_FN; U_IP_OR_STR] /\
   (forall u, In u (unions_of_table CLASSES) -> In u TABLE_UNIONS).
 Proof. exact (conj TABLE_UNIONS_ok (conj (proj1 TABLE_UNIONS_classified) (conj (proj2 TABLE_UNIONS_classified) table_unions_complete))). Qed.
